@@ -87,12 +87,17 @@ func e2eChild() {
 					{Name: "S", Request: "video", SwitchAt: n/4 + r.IntN(n/4), SwitchTo: "video-low"},
 					{Name: "B", Request: "video-low", SwitchAt: n/4 + r.IntN(n/4), SwitchTo: "video"},
 				}
-				res := vmedia.RunGen(srv, name, cfg, scripts, r)
+				// every other spatial session publishes a microphone in the same stream
+				mic := s%4 == 0
+				res := vmedia.RunGen(srv, name, cfg, scripts, r, mic)
 				if !res.OK {
 					run.Count("e2e_sessions_not_established", 1)
 					run.Note("session " + name + ": " + res.Why)
 					run.Count("e2e_not_established: "+res.Why, 1)
 					return
+				}
+				if mic {
+					run.Count("e2e_spatial_sessions_with_a_microphone_in_the_stream", 1)
 				}
 				for _, sub := range res.Subs {
 					judgeSpatial(run, name, cfg, res, sub)
@@ -352,5 +357,6 @@ func e2eTier(run *vk.Run) {
 	run.FloorCounter("e2e_low_quality_pictures_checked", 500)
 	run.FloorCounter("e2e_full_quality_streams_with_upper_layers", int64(batches))
 	run.FloorCounter("e2e_streams_switched_to_low_quality_midway", int64(batches))
+	run.FloorCounter("e2e_spatial_sessions_with_a_microphone_in_the_stream", 1)
 	run.Assume("end-to-end tier: the set of packets a down track deliberately withheld is what its successful packetmap.Drop calls report through the verif trace point; a changed request counts as in force once 50 ping/pong round trips on the same socket have completed after it")
 }
